@@ -81,6 +81,9 @@ func (u *UseRef) wants(name string) bool {
 	if len(u.Names) == 0 {
 		return true
 	}
+	if len(u.Names) == 1 && u.Names[0] == "-" { // "uses R: -": none of its preconditions is established here
+		return false
+	}
 	for _, n := range u.Names {
 		if n == name {
 			return true
